@@ -20,6 +20,7 @@ import CookModel.Lemmas.LoosePads
 import CookModel.Lemmas.LooseValue
 import CookModel.Lemmas.UnitKeysBlank
 import CookModel.Lemmas.NoFence
+import CookModel.Lemmas.InlineScanPrefix
 /-
   C17  Line endings, comments and blank space do not change the recipe.
 
@@ -2721,6 +2722,19 @@ example : SameRecipe (α := Rat) (fun c => c = ' ')
       [tk .word "well".toList]) :: []), [tk .newline ['\n']]) :: [])) = "Mix well\n".toList := by decide
   rw [e1, e2] at h
   exact h
+
+/-- **Obstacle (i), first step only: whether `find_inline_quantity` finds a quantity does not depend on the
+    text in front of the scanned position** (that text only enters the `before` part and the sign of a hit), for
+    every fuel.  The invariance of the scan under blanks inserted next to blanks (the word-by-word induction
+    over `inlineStep` with a relation between the two remaining texts) is NOT proved; with this lemma the
+    relation needs to speak about the remaining text only. -/
+theorem C17_inline_scan_none_prefix_free {α : Type} [Arith α] (env : Env) (fuel : Nat) (pre pre' rest : Str) :
+    (findInlineQuantity (α := α) env fuel pre rest).isNone = (findInlineQuantity (α := α) env fuel pre' rest).isNone :=
+  w8i_none_prefix env fuel pre pre' rest
+
+example : (findInlineQuantity (α := Rat) C17_toyEnv 9 "dda ".toList.reverse "2 cups now".toList).isNone =
+    (findInlineQuantity (α := Rat) C17_toyEnv 9 [] "2 cups now".toList).isNone :=
+  C17_inline_scan_none_prefix_free _ _ _ _ _
 -- ===== end w8c17fence =====
 
 end Cook
